@@ -424,12 +424,12 @@ def registry():
     R["np.concatenate(encoded)"] = (lambda a, b: np.concatenate([a, b]), ["two_ragged_text", "two_flat_text"])
     R["encoded.tolist"] = (lambda a: a.tolist(), ["ragged_text1"])
     R["encoded.to_string"] = (lambda a: a.to_string(), ["flat_text1"])
-    R["count_encoded"] = (lambda a: bnp.count_encoded(a), ["dna_enc1"])
+    R["count_encoded"] = (lambda a: bnp.count_encoded(a), ["dna_enc1", "flat_dna_enc1"])
     R["ragged_slice"] = (lambda a, s, e: bnp.ragged_slice(a, s, e), ["ragged_text+bounds"])
     # --- sequence functions
-    R["get_reverse_complement"] = (lambda a: bnp.sequence.get_reverse_complement(a), ["dna_enc1", "dna_base1"])
+    R["get_reverse_complement"] = (lambda a: bnp.sequence.get_reverse_complement(a), ["dna_enc1", "dna_base1", "flat_dna_enc1", "flat_dna_base1"])
     R["translate_dna_to_protein"] = (lambda a: bnp.sequence.translate_dna_to_protein(a), ["codons", "codon_entries"])
-    R["get_kmers"] = (lambda a, k: bnp.get_kmers(a, k), ["dna_enc+k"])
+    R["get_kmers"] = (lambda a, k: bnp.get_kmers(a, k), ["dna_enc+k", "flat_dna_enc+k"])
     R["get_minimizers"] = (lambda a, k, w: bnp.get_minimizers(a, k, w), ["dna_enc+k+w"])
     R["count_kmers"] = (lambda a, k: bnp.sequence.count_kmers(a, k), ["dna_enc+k"])
     R["get_motif_scores"] = (lambda a, p: bnp.get_motif_scores(a, p), ["dna_enc+pwm"])
@@ -1336,6 +1336,12 @@ def gen_args(kind, rng):
         return [{"k": "list", "items": [gen_args("codon_entries", rng)[0] for _ in range(rng.choice([1, 2, 3]))]}]
     if kind == "bam_chunks_list":
         return [{"k": "list", "items": [file_spec(rng, fmt="bam") for _ in range(rng.choice([1, 2]))]}]
+    if kind == "flat_dna_enc1":
+        return [{"k": "str", "s": _dna(rng, rng.choice([1, 4, 9, 12])), "enc": "DNA"}]
+    if kind == "flat_dna_base1":
+        return [{"k": "str", "s": _dna(rng, rng.choice([1, 4, 9, 12]), alphabet="ACGTNacgtn")}]
+    if kind == "flat_dna_enc+k":
+        return [{"k": "str", "s": _dna(rng, rng.choice([4, 9, 12])), "enc": "DNA"}, py(rng.choice([1, 2, 3]))]
     if kind == "chunk+col+fn":
         return [file_spec(rng), py(rng.randrange(6)), py(rng.choice(["none", "none", "slice", "mask", "ints"])), py(rng.choice(TEXTFNS))]
     if kind == "chunk+field":
@@ -1406,7 +1412,9 @@ def cases(tier, rng):
         for kind in kinds:
             reps = per * (4 if kind in ("chunk", "chunks") else 8 if kind in ("chunk+program", "chunk+col+fn", "chunk+field") else 1)
             for _ in range(reps):
-                yield {"op": "call", "fn": name, "gen": kind, "args": gen_args(kind, rng),
+                a1 = gen_args(kind, rng)
+                yield {"op": "call", "fn": name, "gen": kind, "args": a1,
+                       "args2": [same_shape_spec(x) for x in a1] if rng.random() < 0.6 else gen_args(kind, rng),
                        "variant": rng.choice(["plain", "plain", "views", "fresh:slice", "fresh:mask", "fresh:ints", "readonly", "empty"])}
     # routines that are also executed in the Lean heap model
     for _ in range(200 if big else 40):
@@ -1480,6 +1488,30 @@ def fresh_view(a, sel):
     return make, base
 
 
+_SWAP = str.maketrans("ACGTacgt1234", "CATGcatg2143")
+
+
+def same_shape_spec(s):
+    """an argument of exactly the same shape with other contents (for the history check: a shared output buffer is only
+    overwritten in place by a result of the same shape)"""
+    if not isinstance(s, dict):
+        return s
+    k = s.get("k")
+    if k == "strs":
+        return dict(s, rows=[r.translate(_SWAP) for r in s["rows"]])
+    if k == "str":
+        return dict(s, s=s["s"].translate(_SWAP))
+    if k in ("ints", "floats", "bools"):
+        return dict(s, v=list(reversed(s["v"])))
+    if k == "ragged":
+        return dict(s, rows=[[x + 1 for x in r] for r in s["rows"]])
+    if k == "list":
+        return dict(s, items=[same_shape_spec(x) for x in s["items"]])
+    if k == "table":
+        return dict(s, cols={n: (same_shape_spec(c) if n in ("sequence", "name", "score", "value") else c) for n, c in s["cols"].items()})
+    return s
+
+
 def empty_spec(s):
     """the same argument with zero rows"""
     if not isinstance(s, dict):
@@ -1531,20 +1563,43 @@ def _leaf_arrays(x, depth=0):
         yield from _leaf_arrays(x.raw(), depth + 1)
 
 
-def observe(fn, specs, views=False, variant=None):
+def observe(fn, specs, views=False, variant=None, specs2=None):
     """build the arguments (and a twin), snapshot, call twice, snapshot; returns the observation"""
     try:
-        return _observe(fn, specs, views, variant)
+        return _observe(fn, specs, views, variant, specs2)
     finally:
         _cleanup_paths()
 
 
-def _observe(fn, specs, views, variant):
+def _observe(fn, specs, views, variant, specs2=None):
     import contextlib
     with contextlib.redirect_stdout(open(os.devnull, "w")):
         if variant and variant.startswith("fresh"):
             return _observe_fresh(fn, specs, variant.split(":")[1] if ":" in variant else "slice")
-        return _observe0(fn, specs, views, variant)
+        out = _observe0(fn, specs, views, variant)
+        if specs2 is not None and variant in (None, "plain") and "unbuildable" not in out and "raised" not in out:
+            h = _history(fn, specs, specs2)
+            if h:
+                out["mutated"] = sorted(set(out["mutated"]) | {h})
+        return out
+
+
+def _history(fn, specs, specs2):
+    """the result of a call must read the same after a LATER call of the same function on other arguments"""
+    try:
+        args = [build(s) for s in specs]
+        r1 = fn(*args)
+        d1 = digest(snap(r1, result=True))
+        args2 = [build(s) for s in specs2]
+        r2 = fn(*args2)
+        d2 = digest(snap(r2, result=True))
+    except Exception:
+        return None
+    if digest(snap(r1, result=True)) != d1:
+        return "result-changed-after-a-later-call-of-the-same-function"
+    if digest(snap(r2, result=True)) != d2:
+        return "result-not-stable"
+    return None
 
 
 def _observe_fresh(fn, specs, sel):
@@ -1639,7 +1694,7 @@ def impl(c):
     if op == "call":
         fn = registry()[c["fn"]][0]
         try:
-            return observe(fn, c["args"], views=bool(c.get("views")), variant=c.get("variant"))
+            return observe(fn, c["args"], views=bool(c.get("views")), variant=c.get("variant"), specs2=c.get("args2"))
         except Unknown as e:
             return {"err": "harness:unsnapshotable:" + str(e)}
     bnp = B()
@@ -1746,6 +1801,8 @@ def finding_key(c, got, exp):
     if isinstance(got, dict) and "err" in got:
         return f"{name}:{got['err']}"
     if isinstance(got, dict) and got.get("mutated"):
+        if all(str(m).startswith("result-") for m in got["mutated"]):
+            return f"{name}:result-changed-after-a-later-call"
         return f"{name}:mutates-argument"
     if isinstance(got, dict) and got.get("twice_equal") is False:
         return f"{name}:second-call-differs"
